@@ -13,7 +13,8 @@
  *   C <n> <arfcn>...      a cell allocation (index = order of appearance)
  *   S <mask>              variants: bit (si4*2+bg) set -> run the case with that (si4, bg)
  *   A <len>               every bitmap of <len> octets
- *   B <len> <hex>         one bitmap, result dumped as an R line (cross-checked by the Python reference)
+ *   B <len> <hex>         one bitmap, result dumped as an R line (result + the driver's verdict; cross-checked
+ *                         by the Python reference)
  *   b <len> <hex>         one bitmap, not dumped
  * Case index = running number over (bitmap in spec order) x (si4, bg in mask order).
  *
@@ -71,6 +72,7 @@ static uint8_t base_nohopp[2][1024];	/* base with FREQ_TYPE_HOPP cleared */
 static uint16_t ca_sorted[1024];
 static int nca;
 static unsigned long nprinted;
+static int case_flagged;			/* the driver's oracle rejected the current case */
 
 static void setup_blocks(void)
 {
@@ -130,6 +132,7 @@ static void viol(const char *kind, uint64_t idx, int len, const uint8_t *ma, int
 {
 	char h[40], g[600], w[600];
 	P->cnt[K_NVIOL]++;
+	case_flagged = 1;
 	if (nprinted++ >= 20)
 		return;
 	hexs(h, ma, len);
@@ -149,6 +152,7 @@ NOSAN static void run_case(uint64_t idx, int len, const uint8_t *ma, int si4, in
 	char extra[128];
 
 	/* ---- arrange --------------------------------------------------------------------------- */
+	case_flagged = 0;
 	memcpy(freq, base[bg], 1024);
 	if (len)
 		memcpy(ma_blk[len], ma, len);
@@ -247,8 +251,8 @@ NOSAN static void run_case(uint64_t idx, int len, const uint8_t *ma, int si4, in
 		hexs(h, ma, len);
 		lists(g, hopping, (rc == 0 && n <= 64) ? n : 0);
 		P->cnt[K_DUMPED]++;
-		printf("R %llu %d %s %d %d %d %d %s %u %u\n", (unsigned long long)idx, len, h, si4, bg, rc,
-		       rc == 0 ? n : -1, g, hoppsum, othersum);
+		printf("R %llu %d %s %d %d %d %d %s %u %u %d\n", (unsigned long long)idx, len, h, si4, bg, rc,
+		       rc == 0 ? n : -1, g, hoppsum, othersum, case_flagged);
 	}
 }
 
